@@ -551,7 +551,13 @@ func (w *World) serve(method, target string, form url.Values, hdr http.Header) (
 		if r := recover(); r != nil {
 			panicked = r
 		}
+		if serveHook != nil {
+			serveHook(w, method, target, form, hdr, rec)
+		}
 	}()
 	w.provider().Handler().ServeHTTP(rec, req)
 	return rec, nil
 }
+
+// serveHook, when set, sees every raw request/response pair served by a World (suite c09 scans them)
+var serveHook func(w *World, method, target string, form url.Values, hdr http.Header, rec *httptest.ResponseRecorder)
